@@ -874,6 +874,15 @@ pub fn cli_batch(extra: &[String], samples: usize, env: &[(&str, &str)]) -> Resu
     let cli = std::env::var("PFV_CLI").map_err(|_| "PFV_CLI not set".to_string())?;
     let d = std::env::temp_dir().join(format!("pfv-cli-{}-{}", std::process::id(), N.fetch_add(1, Ordering::Relaxed)));
     let _ = std::fs::remove_dir_all(&d);
+    // every other batch goes to a directory that already holds older, much longer sample files
+    // (a re-run into the same directory): what the tool writes must replace them completely
+    if d.to_string_lossy().as_bytes().last().map_or(false, |c| c % 2 == 1) {
+        let _ = std::fs::create_dir_all(&d);
+        let junk: Vec<u8> = (0..200_000u32).map(|k| [0x4e, 0x30, 0x28, 0x2e, 0x00, 0x95][k as usize % 6]).collect();
+        for k in 0..samples {
+            let _ = std::fs::write(d.join(format!("{}.pkl", k)), &junk);
+        }
+    }
     let mut cmd = std::process::Command::new(&cli);
     cmd.arg("--dir").arg(&d).arg("--samples").arg(samples.to_string()).args(extra);
     for (k, v) in env {
